@@ -594,10 +594,13 @@ fn tx() -> impl Strategy<Value = Tx> {
     })
 }
 
-fn case(multi_thread: bool) -> impl Strategy<Value = Case> {
+fn case(multi_thread: bool, file_backed: Option<bool>) -> impl Strategy<Value = Case> {
     (2usize..=5).prop_flat_map(move |n| {
         (
-            prop::bool::weighted(0.7),
+            match file_backed {
+                Some(f) => Just(f).boxed(),
+                None => prop::bool::weighted(0.7).boxed(),
+            },
             prop::collection::vec(prop::collection::vec(tx(), 1..=4), n),
             prop::collection::vec(any::<u16>(), n),
         )
@@ -661,16 +664,32 @@ pub fn run(mut ctx: Ctx) -> ! {
     ctx.assume("a transaction cancelled while commit() is in flight may be committed or not, but never partially");
     ctx.run_prop(
         Part::new(
-            "writers_current_thread",
-            "2-5 writer tasks x 1-4 transactions x 0-5 steps (tagged insert_operation / associate / set_cursor, in-transaction reads about any transaction) ending in commit / rollback / failing step + early return / permit drop after j steps / cancellation of the whole future at a generated await point (nth suspension in begin / step k / commit-or-rollback), on a file-backed store (16 connections) or the one-connection in-memory store, current-thread runtime, generated start order and yields; non-trivial = at least two writers overlapped in time (one reached begin while another held a transaction), one transaction committed and one that had written rows was aborted",
-            150,
-            5_000,
+            "writers_file_backed",
+            "2-5 writer tasks x 1-4 transactions x 0-5 steps (tagged insert_operation / associate / set_cursor, in-transaction reads about any transaction) ending in commit / rollback / failing step + early return / permit drop after j steps / cancellation of the whole future at a generated await point (nth suspension in begin / step k / commit-or-rollback), on a file-backed store (16 connections), current-thread runtime, generated start order and yields; non-trivial = at least two writers overlapped in time (one asked for a transaction while another held or awaited one), one transaction committed and one that had written rows was aborted",
+            600,
+            6_000,
         )
         .min_nontrivial(0.3),
-        || case(false),
+        || case(false, Some(true)),
         |c| check(&env, c),
     );
-    if ctx.is_thorough() {
+    // Later parts are skipped once a violation was found: on a broken tree the one-connection
+    // store can deadlock (begin waits for the only connection while holding the slot mutex the
+    // stale transaction's rollback needs), which only the watchdog would end.
+    if ctx.violations() == 0 {
+        ctx.run_prop(
+            Part::new(
+                "writers_in_memory",
+                "same histories without whole-future cancellation on the one-connection in-memory store (every statement of every writer shares one connection); non-trivial as above",
+                200,
+                2_000,
+            )
+            .min_nontrivial(0.3),
+            || case(false, Some(false)),
+            |c| check(&env, c),
+        );
+    }
+    if ctx.is_thorough() && ctx.violations() == 0 {
         ctx.run_prop(
             Part::new(
                 "writers_multi_thread",
@@ -680,7 +699,7 @@ pub fn run(mut ctx: Ctx) -> ! {
             )
             .min_nontrivial(0.2)
             .workers(1, 8),
-            || case(true),
+            || case(true, None),
             |c| check(&env, c),
         );
     }
